@@ -140,3 +140,34 @@ impl ClientSession {
         self.inner.is_enabled()
     }
 }
+
+/// Source of connections for the TCP channel task, in place of `TcpStream::connect`
+pub trait Connector: Send + Sync + 'static {
+    /// one connection attempt
+    fn connect(
+        &self,
+    ) -> std::pin::Pin<
+        Box<dyn std::future::Future<Output = std::io::Result<Box<dyn VerifIo>>> + Send + '_>,
+    >;
+}
+
+/// The production TCP channel task (enable / connect / retry / listener / request loop) that
+/// obtains its connections from `connector`
+pub fn tcp_client_task(
+    connector: Arc<dyn Connector>,
+    retry: Box<dyn crate::RetryStrategy>,
+    listener: Box<dyn crate::client::Listener<crate::client::ClientState>>,
+    options: crate::ClientOptions,
+) -> (Channel, crate::client::ClientTask) {
+    let (tx, rx) = tokio::sync::mpsc::channel(options.max_queued_requests);
+    let mut task = crate::tcp::client::TcpChannelTask::new(
+        crate::client::HostAddr::ip(std::net::IpAddr::V4(std::net::Ipv4Addr::LOCALHOST), 1),
+        rx.into(),
+        crate::tcp::client::TcpTaskConnectionHandler::Tcp,
+        retry,
+        options,
+        listener,
+    );
+    task.set_verif_connector(connector);
+    (Channel { tx }, crate::client::ClientTask::tcp(task))
+}
